@@ -159,6 +159,13 @@ Example c01_nonvacuous :
    modelled_writes reference_lint_prog = [LViol; LNotice; LAggs; LDirs]).
 Proof. exact (conj lint_run_exists reference_prog_ok). Qed.
 
+(* H_aggperm can be met by an oracle that does look at its arguments. *)
+Example c01_aggperm_satisfiable :
+  (forall a1 a2 d1 d2, aggs_equiv a1 a2 -> dirs_equiv d1 d2 ->
+                       Permutation (ex_aggreport a1 d1) (ex_aggreport a2 d2)) /\
+  ex_aggreport [] [] <> ex_aggreport [([107%N], [])] [].
+Proof. exact aggperm_satisfiable. Qed.
+
 (* The side condition is not decoration: without the mutex a complete execution loses an update. *)
 Example c01_unlocked_write_loses_update :
   exists sched st,
